@@ -10,6 +10,7 @@ CONSTANTS
   WithAux = TRUE
   MinCalls = 0
   WithAsm = FALSE
+  WithRefusals = TRUE
 INVARIANTS WellFormedInv IndexExactInv ContentInv CrcInv StatsInv LiveStatsInv
 PROPERTY Monotone
 CHECK_DEADLOCK FALSE
